@@ -20,13 +20,19 @@ pub struct Cfg {
     /// node-set expressions for the differential oracle, with namespace bindings
     pub diff_pool: Vec<String>,
     pub diff_ns: Vec<(String, String)>,
+    /// clauses switched off because a listed known finding names them as its trigger (state-based
+    /// findings: the defect shows in an observation, not in the outcome of one call).  Empty in replays.
+    pub gates: Vec<String>,
 }
 
 impl Default for Cfg {
     fn default() -> Cfg {
-        Cfg { limit: 2000, c15_each: true, c14_diff_each: false, diff_pool: vec![], diff_ns: vec![] }
+        Cfg { limit: 2000, c15_each: true, c14_diff_each: false, diff_pool: vec![], diff_ns: vec![], gates: vec![] }
     }
 }
+
+/// clause names that exist only as gated clauses (each is also the trigger name of its finding)
+pub const GATED_CLAUSES: &[&str] = &["defaulted_attr_child_parent", "defaulted_attr_order_zero", "nontext_normal_queries"];
 
 #[derive(Clone, Debug, Default)]
 pub struct StepReport {
@@ -384,12 +390,13 @@ impl World {
             return Err(format!("setup: model built from the parse disagrees with it: {}", d));
         }
         initial_fails.extend(oracle::check_tree(&w.last));
-        if initial_fails.is_empty() {
+        if initial_fails.iter().all(|f| GATED_CLAUSES.contains(&f.clause)) {
             initial_fails.extend(oracle::check_order(&w.last));
         }
         for i in 0..w.real.docs.len() {
             w.last_ser.push(w.real.serialize(i).ok());
         }
+        initial_fails.retain(|f| !w.cfg.gates.iter().any(|g| g == f.clause));
         w.initial_fails = initial_fails;
         Ok(w)
     }
@@ -628,7 +635,7 @@ impl World {
         }
         self.model.gen += 1;
         rep.fails.extend(oracle::check_tree(&obs));
-        if rep.fails.is_empty() {
+        if rep.fails.iter().all(|f| GATED_CLAUSES.contains(&f.clause)) {
             rep.fails.extend(oracle::check_order(&obs));
         }
         if let Some(d) = oracle::compare(&obs, &self.model.expect_all()) {
@@ -638,6 +645,9 @@ impl World {
         self.last_ser = (0..self.real.docs.len()).map(|i| self.real.serialize(i).ok()).collect();
         rep.probes.push("F5_restart_from_serialisation");
         rep.digest = self.digest();
+        let mut fails = std::mem::take(&mut rep.fails);
+        self.drop_gated(&mut fails, &mut rep);
+        rep.fails = fails;
         rep
     }
 
@@ -725,10 +735,11 @@ impl World {
 
         // observe
         let (post_raw, tfails) = self.real.observe(self.cfg.limit);
-        let tree_broken = !tfails.is_empty();
+        // (a value piece of a defaulted attribute with the wrong parent does not make the graph unsafe to walk)
+        let tree_broken = tfails.iter().any(|f| !GATED_CLAUSES.contains(&f.clause));
         fails.extend(tfails);
         fails.extend(oracle::check_tree(&post_raw));
-        let tree_broken = tree_broken || fails.iter().any(|f| f.prop == "C12");
+        let tree_broken = tree_broken || fails.iter().any(|f| f.prop == "C12" && !GATED_CLAUSES.contains(&f.clause));
         let post = oracle::normalise(&post_raw);
 
         // serialisations (only on graphs proved to be trees)
@@ -827,8 +838,21 @@ impl World {
             self.last_ser = post_ser;
         }
         rep.digest = self.digest();
+        self.drop_gated(&mut fails, &mut rep);
         rep.fails = fails;
         rep
+    }
+
+    /// clauses of listed state-based findings are not judged in exploration runs (counted instead)
+    fn drop_gated(&self, fails: &mut Vec<Fail>, rep: &mut StepReport) {
+        if self.cfg.gates.is_empty() {
+            return;
+        }
+        let before = fails.len();
+        fails.retain(|f| !self.cfg.gates.iter().any(|g| g == f.clause));
+        if fails.len() < before {
+            rep.probes.push("clause_of_listed_finding_not_judged");
+        }
     }
 
     fn clear_out(&mut self, step: &Step) {
@@ -1703,10 +1727,12 @@ impl World {
         if self.successes >= 3 {
             rep.probes.push("recovered_after_3_edits");
         }
-        if with_queries && !self.model.text_normal(doc) {
+        let normal = self.model.text_normal(doc);
+        let gated = self.cfg.gates.iter().any(|g| g == "nontext_normal_queries");
+        if with_queries && !normal && gated {
             rep.probes.push("differential_queries_skipped_adjacent_or_empty_text");
         }
-        if with_queries && self.model.text_normal(doc) {
+        if with_queries && (normal || !gated) {
             let ns = self.cfg.diff_ns.clone();
             for q in self.cfg.diff_pool.clone() {
                 let mut c1 = make_ctx(&ns);
@@ -1724,7 +1750,7 @@ impl World {
                         if l1 != l2 {
                             fails.push(Fail::new(
                                 "C14",
-                                "query-differs",
+                                if normal { "query-differs" } else { "nontext_normal_queries" },
                                 format!("query {:?} on the edited document selects {} but on the re-parsed copy {} (serialisation {:?})", q, l1, l2, ser),
                             ));
                             return;
